@@ -4,7 +4,7 @@
    return: a caller that keeps calling after an ErrorToken is included), [reach d s] says s is a state
    the lexer is in after some number of calls on input d.  Slices are coordinates [lo,hi) in the buffer
    d ++ [0]; a Go panic / a read outside the buffer would be [None]. *)
-From Verif Require Import Common.Base Common.Lx Xml.Model Xml.Step Xml.Proofs Xml.WellFormed.
+From Verif Require Import Common.Base Common.Lx Xml.Model Xml.Step Xml.Proofs Xml.WellFormed Xml.Checker.
 
 (* C01 totality: for every byte string and every number of calls, no call panics (no index outside
    data ++ [0] is read, no slice expression is out of range). *)
@@ -123,6 +123,15 @@ Theorem xml_wellformed_tokens_partial :
   forall items, doc_ok items -> lexes (xml_init (render_doc items)) (expect_doc items) 1.
 Proof. exact xml_wellformed_tokens_proof. Qed.
 Print Assumptions xml_wellformed_tokens_partial.
+
+(* The same with the grammar's side conditions as an executable check.  The correspondence driver
+   `xmlspec` evaluates doc_okb, render_doc and expect_doc on every generated document and compares the
+   bytes and tokens with what the real lexer returns for the same constructs, so the specification
+   itself (not only the model) is tied to the code. *)
+Theorem xml_wellformed_checked :
+  forall items, doc_okb items = true -> lexes (xml_init (render_doc items)) (expect_doc items) 1.
+Proof. exact xml_wellformed_checked_proof. Qed.
+Print Assumptions xml_wellformed_checked.
 
 (* Refuted reading "every well-formed DOCTYPE is one token": <!DOCTYPE a SYSTEM 'x>y'><a/> is lexed as
    DOCTYPE [0,22) = <!DOCTYPE a SYSTEM 'x>   then Text y'>  then StartTag ... (only the double quote counts
